@@ -6,6 +6,7 @@ Model: Impl/C02Join.lean (one join: assumed SQL semantics, PySpark's specificati
 (whole programs: `runImpl`, `runSpec`, named scope hypotheses).  Full statement vs what is proved: bottom of the file.
 -/
 import SqlframeModel.Lemmas.C02
+import SqlframeModel.Lemmas.C02Ctes
 set_option linter.unusedSimpArgs false
 namespace Sqlframe
 open Gen
@@ -80,10 +81,13 @@ theorem C02_on_none : ∀ h ∈ spellings, onNoneOk h = true →
     semi/anti) the right columns without the keys — only the keys are de-duplicated.  Holds for every join table list
     the names are later resolved against. -/
 theorem C02_cols_name (kind : JoinKind) (tables : List (Name × List Name)) (lt rt : Name)
-    (Lc Rc keys : List Name) (hL : Lc.Nodup) (hR : Rc.Nodup) :
+    (Lc Rc keys : List Name) (hL : Lc.Nodup) (hR : Rc.Nodup) (hr : RenderOK (Lc ++ Rc) keys) :
     (resolveArgs tables [] (nameJoinArgs kind.jt Lc Rc (keys.map (fun k => (k, lt, rt))))).map (·.1) =
       (joinSpecNames kind keys { cols := Lc, rows := [] } { cols := Rc, rows := [] }).cols := by
-  rw [resolveArgs_names, gen_nameJoinArgs, gen_selectColumns, pairs_keys]
+  rw [resolveArgs_names, gen_nameJoinArgs kind Lc Rc _ (by
+      rw [pairs_keys, gen_selectColumns]
+      exact hr.mono (fun c hc => by cases kind <;> simp_all [JoinKind.keepsRight])),
+    gen_selectColumns, pairs_keys]
   simp only [joinSpecNames, List.map_append, List.map_map, Function.comp_def]
   rw [restCols_eq_filter _ _ hL, restCols_eq_filter _ _ hR]
   have hk : (keys.map (fun k => (keyArg kind.jt ((k, lt, rt) : KeyPair)).outName)) = keys := by
@@ -102,11 +106,14 @@ theorem C02_cols_expr (kind : JoinKind) (tables : List (Name × List Name)) (Lc 
 
 /-- **semi / anti.** Only the left side's columns survive, in both branches. -/
 theorem C02_cols_semi_anti (kind : JoinKind) (hk : kind = .leftSemi ∨ kind = .leftAnti) (tables : List (Name × List Name))
-    (lt rt : Name) (Lc Rc keys : List Name) :
+    (lt rt : Name) (Lc Rc keys : List Name) (hr : RenderOK Lc keys) :
     (resolveArgs tables [] (nameJoinArgs kind.jt Lc Rc (keys.map (fun k => (k, lt, rt))))).map (·.1) = keys ++ Lc.filter (· ∉ keys) ∧
     (resolveArgs tables [] (exprJoinArgs kind.jt Lc Rc)).map (·.1) = Lc := by
   constructor
-  · rw [resolveArgs_names, gen_nameJoinArgs, gen_selectColumns, pairs_keys]
+  · rw [resolveArgs_names, gen_nameJoinArgs kind Lc Rc _ (by
+        rw [pairs_keys, gen_selectColumns]
+        exact hr.mono (fun c hc => by rcases hk with rfl | rfl <;> simpa [JoinKind.keepsRight] using hc)),
+      gen_selectColumns, pairs_keys]
     have hk' : (keys.map (fun k => (keyArg kind.jt ((k, lt, rt) : KeyPair)).outName)) = keys := by
       rw [show (fun k => (keyArg kind.jt ((k, lt, rt) : KeyPair)).outName) = id from by
         funext k; rw [gen_keyArg]; rcases hk with rfl | rfl <;> simp [SelArg.outName]]
@@ -126,12 +133,13 @@ theorem C02_cols_semi_anti (kind : JoinKind) (hk : kind = .leftSemi ∨ kind = .
 theorem C02_rows_name (kind : JoinKind) (hk : kind ≠ .cross) (lt rt : Name) (keys : List Name) (L R : Table)
     (hL : L.WF) (hR : R.WF) (hkn : keys.Nodup) (hne : keys ≠ [])
     (hkL : ∀ k ∈ keys, k ∈ L.cols) (hkR : ∀ k ∈ keys, k ∈ R.cols)
-    (hq : QualOK lt rt L.cols R.cols) (hcoll : NoRightCollision kind L.cols R.cols keys) :
+    (hq : QualOK lt rt L.cols R.cols) (hcoll : NoRightCollision kind L.cols R.cols keys)
+    (hr : RenderOK (L.cols ++ R.cols) keys) :
     ∃ d, joinDFNames kind.jt kind lt rt keys L R = some d ∧ d.last = .from_ ∧ d.eval = joinSpecNames kind keys L R := by
   simp only [joinDFNames, gen_keyPairs lt rt L.cols keys hkL]
   refine ⟨_, rfl, rfl, ?_⟩
   simp only [DF.eval]
-  rw [evalBlock_sel_only, nameJoin_items kind hk lt rt L.cols R.cols keys hL.1 hR.1 hkn hkL hkR hcoll]
+  rw [evalBlock_sel_only, nameJoin_items kind hk lt rt L.cols R.cols keys hL.1 hR.1 hkn hkL hkR hcoll hr]
   simp only [joinSpecNames]
   congr 1
   · -- column names
@@ -201,7 +209,206 @@ theorem C02_coalesce_key (lt rt : Name) (L R : Table) (hq : QualOK lt rt L.cols 
     chains of inner / left joins that is the table PySpark's de-duplicated key comes from. -/
 theorem C02_chain_key_leftmost (a : Name) (Ca : List Name) (rest : List (Name × List Name)) (r k : Name) (hk : k ∈ Ca) :
     keyPairs ((a, Ca) :: rest) r [k] = some [(k, a, r)] := by
-  simp [keyPairs, keyLeftmostFirst, List.find?, hk]
+  simp [keyPairs, keyLeftmostFirst, keyLookupRender, Render.apply, List.find?, hk]
+
+/-! ### names that need quoting -/
+
+/-- **every name.** The de-duplication of the name-join branch compares a select column with the keys through the
+    renderings the source uses on the two sides of `not in` (regenerated: `selectNameRender`, `keyNameRender`,
+    `dedupKeyRender`).  With the renderings of the pinned tree a column is dropped exactly when it is a key — also for
+    names that are rendered quoted (`order id`, `user-id`): for ALL name lists without a backtick. -/
+theorem C02_dedup_any_name (jt : String) (lt rt : Name) (cols keys : List Name)
+    (hc : ∀ c ∈ cols, NoBacktick c) (hk : ∀ k ∈ keys, NoBacktick k) :
+    cols.filter (fun c => selectNameRender.apply c ∉ dedupKeyNames jt (keys.map (fun k => ((k, lt, rt) : KeyPair)))) =
+      cols.filter (fun c => c ∉ keys) := by
+  apply List.filter_congr
+  intro c hcm
+  have hr : ∀ k ∈ (keys.map (fun k => ((k, lt, rt) : KeyPair))).map (·.1), quoteName c = quoteName k → c = k := by
+    rw [pairs_keys]; exact fun k hkm => quoteName_inj c k (hc c hcm) (hk k hkm)
+  have := gen_dedup_test jt (keys.map (fun k => ((k, lt, rt) : KeyPair))) c hr
+  rw [pairs_keys] at this
+  by_cases h : c ∈ keys
+  · simp [h, this.mpr h]
+  · have h' : ¬ (selectNameRender.apply c ∈ dedupKeyNames jt (keys.map (fun k => ((k, lt, rt) : KeyPair)))) := fun x => h (this.mp x)
+    simp [h, h']
+
+/-- the scope hypothesis `RenderOK` of the column / row theorems holds for all backtick-free names -/
+theorem C02_render_ok (cols keys : List Name) (hc : ∀ c ∈ cols, NoBacktick c) (hk : ∀ k ∈ keys, NoBacktick k) :
+    RenderOK cols keys := renderOK_of_noBacktick cols keys hc hk
+
+/-- why both sides must use one rendering: a quoted rendering is never equal to the plain name (so comparing
+    `Column.alias_or_name` with `expression.alias_or_name` keeps every key that needs quotes) -/
+theorem C02_render_mixed (n : Name) (hq : needsQuote n = true) (hb : NoBacktick n) : Render.quoted.apply n ≠ Render.plain.apply n := by
+  intro h
+  simp only [Render.apply, quoteName, hq, if_true] at h
+  apply hb
+  rw [← h]
+  simp [String.toList_append, bt_toList]
+
+example : needsQuote "order id" = true ∧ needsQuote "user-id" = true ∧ needsQuote "k" = false ∧ needsQuote "1st" = false ∧
+    quoteName "order id" = "`order id`" ∧ quoteName "cust_id" = "cust_id" := by decide
+
+/-! ### stars -/
+
+/-- `t.*` becomes the columns of the CTE t *qualified with t* (`Gen.starQualifiedByCte`) … -/
+theorem C02_star_items (t : Name) (cols : List Name) :
+    toExprs ((starQ t cols).map (·.2)) = some (cols.map (fun c => Expr.col (qual t c))) ∧ (starQ t cols).map (·.1) = cols := by
+  constructor
+  · induction cols with
+    | nil => rfl
+    | cons c cs ih =>
+      simp only [starQ, List.map_cons, List.map_map, Function.comp_def, starQualifiedByCte, if_true] at ih ⊢
+      simp only [toExprs, QExpr.toExpr, ih]
+  · simp [starQ, Function.comp_def]
+
+/-- … so that on a join block the star of the RIGHT table is exactly the right half of every joined row (NULLs for a
+    left row without a match), whatever names the two sides share — and the star of the LEFT table the left half.
+    For every kind that keeps the right side, every condition, all well-formed inputs with distinct qualified names. -/
+theorem C02_star_right (kind : JoinKind) (hk : kind.keepsRight = true) (lt rt : Name) (on : Option Expr) (L R : Table)
+    (hL : L.WF) (hR : R.WF) (hq : QualOK lt rt L.cols R.cols) :
+    evalBlock { sel := R.cols.zip (R.cols.map (fun c => Expr.col (qual rt c))) } (joinTables kind on (qtable lt L) (qtable rt R)) =
+      { cols := R.cols,
+        rows := (joinPairs kind (fun l r => onHolds ((qtable lt L).cols ++ (qtable rt R).cols) on (l ++ r)) L.rows R.rows).map
+          (fun p => p.2.getD (nulls R.cols.length)) } := by
+  rw [evalBlock_sel_only]
+  have hz : R.cols.zip (R.cols.map (fun c => Expr.col (qual rt c))) = R.cols.map (fun c => (c, Expr.col (qual rt c))) := by
+    induction R.cols with
+    | nil => rfl
+    | cons c cs ih => simp [ih]
+  rw [hz]
+  congr 1
+  · simp [Function.comp_def]
+  · simp only [joinTables, hk, if_true, List.map_map]
+    apply List.map_congr_left
+    intro p hp
+    have hmem := joinPairs_mem kind _ L.rows R.rows p hp
+    have hll := side_len L hL p.1 hmem.1
+    have hrl := side_len R hR p.2 hmem.2
+    simp only [Function.comp_def, Pair.flat, hk, if_true, qtable, List.length_map, eval]
+    exact (List.map_congr_left (fun c hc => hq.right _ _ c hc hll)).trans (map_lookup_self R.cols _ hR.1 hrl)
+
+theorem C02_star_left (kind : JoinKind) (hk : kind.keepsRight = true) (lt rt : Name) (on : Option Expr) (L R : Table)
+    (hL : L.WF) (hq : QualOK lt rt L.cols R.cols) :
+    evalBlock { sel := L.cols.zip (L.cols.map (fun c => Expr.col (qual lt c))) } (joinTables kind on (qtable lt L) (qtable rt R)) =
+      { cols := L.cols,
+        rows := (joinPairs kind (fun l r => onHolds ((qtable lt L).cols ++ (qtable rt R).cols) on (l ++ r)) L.rows R.rows).map
+          (fun p => p.1.getD (nulls L.cols.length)) } := by
+  rw [evalBlock_sel_only]
+  have hz : L.cols.zip (L.cols.map (fun c => Expr.col (qual lt c))) = L.cols.map (fun c => (c, Expr.col (qual lt c))) := by
+    induction L.cols with
+    | nil => rfl
+    | cons c cs ih => simp [ih]
+  rw [hz]
+  congr 1
+  · simp [Function.comp_def]
+  · simp only [joinTables, hk, if_true, List.map_map]
+    apply List.map_congr_left
+    intro p hp
+    have hmem := joinPairs_mem kind _ L.rows R.rows p hp
+    have hll := side_len L hL p.1 hmem.1
+    simp only [Function.comp_def, Pair.flat, hk, if_true, qtable, List.length_map, eval]
+    exact (List.map_congr_left (fun c hc => hq.left _ _ c hc hll)).trans (map_lookup_self L.cols _ hL.1 hll)
+
+/-- non-vacuity: a left join whose sides share `k` AND `v`; the right star has the right values and the NULLs of the
+    unmatched left rows (with bare names it would read the left `k`, `v`) -/
+example : evalBlock { sel := ["k", "v"].zip (["k", "v"].map (fun c => Expr.col (qual "b" c))) }
+      (joinTables .leftOuter (some (.bin .eq (.col "a.k") (.col "b.k")))
+        (qtable "a" { cols := ["k", "v"], rows := [[.int 1, .int 10], [.int 2, .int 20]] })
+        (qtable "b" { cols := ["k", "v"], rows := [[.int 2, .int 7]] })) =
+    { cols := ["k", "v"], rows := [[.int 2, .int 7], [.null, .null]] } := by decide
+
+/-- **`select('*')` on a join block.**  A bare star is expanded to the block's output names BEFORE `_resolve_ambiguous_columns`
+    runs (`Gen.expandBeforeResolve`, `Gen.starPlainFromSelect`), so every name goes to the table `join` itself sent it to when
+    it built the block: same walk order, same left-to-right counting of repeated names — the n-th `k` is the n-th table's `k`. -/
+theorem C02_star_plain (s : Sess) (d : SDF) (hj : d.joins.isEmpty = false) :
+    (ensureNormItems s d [.star]).bind (fun nqs => toExprs (nqs.map (·.2))) =
+      some ((resolveArgs d.walkTables [] ((d.sel.map (·.1)).map .name)).map (·.2)) ∧
+    (ensureNormItems s d [.star]).map (fun nqs => nqs.map (·.1)) = some (d.sel.map (·.1)) := by
+  have hex : ensureNormItems s d [.star] =
+      some ((d.sel.map (·.1)).zip (resolveAllQ d.walkTables [] ((d.sel.map (·.1)).map (fun n => QExpr.col none n none)))) := by
+    simp only [ensureNormItems, normalizeItems, expandBeforeResolve, if_true, expandItems, expandItem, starPlainFromSelect,
+      List.append_nil, Option.map, SDF.resolveAmbiguous, hj, Bool.false_eq_true, if_false, List.map_map, Function.comp_def]
+  have hlen : ∀ (t : List (Name × List Name)) (b : List Name) (qs : List QExpr), (resolveAllQ t b qs).length = qs.length := by
+    intro t b qs
+    induction qs generalizing b with
+    | nil => rfl
+    | cons q qs ih => simp [resolveAllQ, ih]
+  rw [hex]
+  constructor
+  · simp only [Option.bind]
+    rw [List.map_snd_zip (by rw [hlen]; simp)]
+    exact resolveAllQ_bare _ _ _
+  · simp only [Option.map]
+    rw [List.map_fst_zip (by rw [hlen]; simp)]
+
+/-- **display names after a select with stars.** The positions of the star arguments are removed from the two lists
+    `_update_display_name_mapping` zips in the generated order (`Gen.starPopsBackToFront`): what is left are exactly the
+    non-star arguments, each with its own spelling — for every argument list (any number of stars, anywhere). -/
+theorem C02_star_pop (items : List SItem) :
+    popSeq (if starPopsBackToFront then (idxOf SItem.isStar items).reverse else idxOf SItem.isStar items) (items.map sitemDisplay) =
+      some ((items.filter (fun it => !it.isStar)).map sitemDisplay) := by
+  simp only [starPopsBackToFront, if_true]
+  rw [popSeq_map, popSeq_back_to_front]
+  rfl
+
+/-- front to back it goes wrong as soon as a star is followed by anything: `select(a['*'], 'V', b['*'])` -/
+example : popSeq (idxOf SItem.isStar [.starDf 0, .col "v" "V" (.ref (.name "v")), .starDf 1])
+      ([SItem.starDf 0, .col "v" "V" (.ref (.name "v")), .starDf 1].map sitemDisplay) = none := by decide
+
+/-! ### merging the WITH clauses -/
+
+/-- **`_add_ctes_to_expression` preserves every CTE's value.**  For every interpretation of the query operators, every
+    catalog, every left WITH clause `E` and every right WITH clause `R` that meet `MergeOK` (the right side's names are
+    distinct, its reads go backwards or to catalog names no left CTE shadows, the new names are fresh): in the merged
+    clause every left CTE keeps its value, the names are the left names followed by the right names under one renaming `ρ`,
+    and the CTE that took the place of each right CTE has the value that CTE had in its own statement.  The loop's
+    decisions (earlier renames applied before the name test, rename recorded under the old name) are `Gen.JoinMerge`'s. -/
+theorem C02_merge_preserves (I : Interp) (base : Env) (gen : Nat → Name) (E R : List NCte) (h : MergeOK gen E R) :
+    (∀ n ∈ E.map (·.name), withEnv I base (mergeCtes gen E R) n = withEnv I base E n) ∧
+    ∃ ρ : Name → Name,
+      (mergeCtes gen E R).map (·.name) = E.map (·.name) ++ R.map (fun c => ρ c.name) ∧
+      ∀ c ∈ R, withEnv I base (mergeCtes gen E R) (ρ c.name) = withEnv I base R c.name := by
+  have inv := mergeFold_inv I base gen E (R.map (·.name)) R.length (fun i j hi hj e => h.geninj i hi j hj e)
+    (fun i hi => (h.fresh i hi).1) (fun i hi => (h.fresh i hi).2.1) R [] (mergeInit E) (minv_init I base gen E)
+    (by intro p hp; simp at hp) (fun c hc => List.mem_map.mpr ⟨c, hc, rfl⟩) (by simpa using h.rnodup)
+    (by simpa using h.closed) (by simp) (fun i hi c hc => (h.fresh i hi).2.2 c hc)
+  simp only [List.nil_append] at inv
+  refine ⟨inv.evals, renameName (R.foldl (mergeStep gen) (mergeInit E)).ren, inv.names, ?_⟩
+  intro c hc
+  exact inv.vals c.name (List.mem_map.mpr ⟨c, hc, rfl⟩)
+
+/-- two statements that both call their staging CTE `src` (different contents), the right one reading it from a second CTE -/
+def mergeE : List NCte := [{ name := "src", body := .lit { cols := ["k"], rows := [[.int 1]] } }, { name := "lhs", body := .un 0 (.ref "src") }]
+def mergeR : List NCte := [{ name := "src", body := .lit { cols := ["k"], rows := [[.int 2]] } }, { name := "stg", body := .un 0 (.ref "src") },
+                           { name := "rhs", body := .bin 0 (.ref "stg") (.ref "src") }]
+def mergeGen : Nat → Name := fun k => ["#0", "#1", "#2"].getD k ""
+def idInterp : Interp := { un := fun _ T => T, bin := fun _ T _ => T }
+
+instance (En Rn : List Name) : ∀ (earlier : List Name) (cs : List NCte), Decidable (ClosedFrom En Rn earlier cs)
+  | _, [] => Decidable.isTrue trivial
+  | earlier, c :: cs =>
+    have := instDecidableClosedFrom En Rn (earlier ++ [c.name]) cs
+    by unfold ClosedFrom; exact inferInstance
+
+/-- non-vacuity: the hypotheses hold there, the clashing CTE is renamed, the later CTEs follow it, and they keep the RIGHT data -/
+example : MergeOK mergeGen mergeE mergeR :=
+  { rnodup := by decide, geninj := by decide, fresh := by decide, closed := by decide }
+
+example : (mergeCtes mergeGen mergeE mergeR).map (fun c => (c.name, c.body.refs)) =
+    [("src", []), ("lhs", ["src"]), ("#0", []), ("stg", ["#0"]), ("rhs", ["stg", "#0"])] ∧
+    withEnv idInterp (fun _ => none) (mergeCtes mergeGen mergeE mergeR) "rhs" = some { cols := ["k"], rows := [[.int 2]] } := by decide
+
+/-- the rename has to be recorded under the OLD name: recorded under the new name (the alias read after it was replaced) the
+    later CTEs of the right side keep reading the LEFT side's CTE of that name — same inputs, the value is the left data -/
+theorem C02_cex_mergeKeyNew :
+    withEnv idInterp (fun _ => none) (mergeCtesF { renamesBeforeTest := true, keyIsOldName := false, recordsNewName := true } mergeGen mergeE mergeR) "rhs"
+      = some { cols := ["k"], rows := [[.int 1]] } ∧
+    withEnv idInterp (fun _ => none) mergeR "rhs" = some { cols := ["k"], rows := [[.int 2]] } := by decide
+
+/-- … and the recorded renames have to reach every later CTE before its own name is tested -/
+theorem C02_cex_mergeNoRenames :
+    withEnv idInterp (fun _ => none) (mergeCtesF { renamesBeforeTest := false, keyIsOldName := true, recordsNewName := true } mergeGen mergeE mergeR) "rhs"
+      ≠ withEnv idInterp (fun _ => none) mergeR "rhs" := by decide
 
 /-! ### chains: a join result re-enters the C01 world -/
 
@@ -222,10 +429,11 @@ theorem C02_chain_name (kind : JoinKind) (hk : kind ≠ .cross) (lt rt : Name) (
     (hL : L.WF) (hR : R.WF) (hkn : keys.Nodup) (hne : keys ≠ [])
     (hkL : ∀ k ∈ keys, k ∈ L.cols) (hkR : ∀ k ∈ keys, k ∈ R.cols)
     (hq : QualOK lt rt L.cols R.cols) (hcoll : NoRightCollision kind L.cols R.cols keys)
+    (hr : RenderOK (L.cols ++ R.cols) keys)
     (hnd : (joinSpecNames kind keys L R).cols.Nodup) :
     ∃ d, joinDFNames kind.jt kind lt rt keys L R = some d ∧
       Inv d.wrap ∧ d.wrap.last = .from_ ∧ d.wrap.eval = joinSpecNames kind keys L R := by
-  obtain ⟨d, hd, hlast, he⟩ := C02_rows_name kind hk lt rt keys L R hL hR hkn hne hkL hkR hq hcoll
+  obtain ⟨d, hd, hlast, he⟩ := C02_rows_name kind hk lt rt keys L R hL hR hkn hne hkL hkR hq hcoll hr
   refine ⟨d, hd, ?_⟩
   have hs : (d.blk.sel.map (·.1)).Nodup := by
     have : (d.eval).cols = d.blk.sel.map (·.1) := by simp [DF.eval, evalBlock]
@@ -239,7 +447,7 @@ theorem C02_chain_name (kind : JoinKind) (hk : kind ≠ .cross) (lt rt : Name) (
 theorem C02_partial (h : String) (hh : h ∈ spellings) (lt rt : Name) (keys : List Name) (L R : Table)
     (hL : L.WF) (hR : R.WF) (hkn : keys.Nodup) (hne : keys ≠ [])
     (hkL : ∀ k ∈ keys, k ∈ L.cols) (hkR : ∀ k ∈ keys, k ∈ R.cols)
-    (hq : QualOK lt rt L.cols R.cols) :
+    (hq : QualOK lt rt L.cols R.cols) (hr : RenderOK (L.cols ++ R.cols) keys) :
     ∃ kind, specKindOf h = some kind ∧
       (NoRightCollision (specKindWithOn kind) L.cols R.cols keys →
         ∃ d, joinDFNames (joinTypeFor false h) (specKindWithOn kind) lt rt keys L R = some d ∧
@@ -253,7 +461,7 @@ theorem C02_partial (h : String) (hh : h ∈ spellings) (lt rt : Name) (keys : L
     have hjt : joinTypeFor false h = (specKindWithOn kind).jt := by
       have := hh'.1; simp at this; exact this.symm
     have hnc : specKindWithOn kind ≠ .cross := by cases kind <;> simp [specKindWithOn]
-    obtain ⟨d, hd, _, he⟩ := C02_rows_name (specKindWithOn kind) hnc lt rt keys L R hL hR hkn hne hkL hkR hq hcoll
+    obtain ⟨d, hd, _, he⟩ := C02_rows_name (specKindWithOn kind) hnc lt rt keys L R hL hR hkn hne hkL hkR hq hcoll hr
     exact ⟨d, by rw [hjt]; exact hd, he⟩
 
 /-! ### named scope hypotheses and their counterexamples
@@ -401,6 +609,28 @@ theorem C02_cex_nameJoinDupKeyName :
     (runImpl wit_nameJoinDupKeyName).flags = ["H_nameJoinDupKeyName"] ∧ (runSpec wit_nameJoinDupKeyName).isSome = true ∧
     (runImpl wit_nameJoinDupKeyName).result ≠ runSpec wit_nameJoinDupKeyName := by decide
 
+/-- `f0 = session.sql('WITH k AS (SELECT k, v FROM (VALUES (1, 10), (2, 20)) AS t(k, v)) SELECT k, v FROM k'); f1 = session.sql('WITH k AS (SELECT k, v FROM (VALUES (2, 7), (3, 8)) AS t(k, v)) SELECT k, v AS w FROM k'); f2 = f0.join(f1, 'k', 'inner')` -/
+def wit_cteNameNotAColumn : List FrameDef := [
+  .sqlq [{ name := "k", body := .values { cols := ["k", "v"], rows := [[.int 1, .int 10], [.int 2, .int 20]] } }]
+    { src := "k", items := [("k", "k"), ("v", "v")], wher := none },
+  .sqlq [{ name := "k", body := .values { cols := ["k", "v"], rows := [[.int 2, .int 7], [.int 3, .int 8]] } }]
+    { src := "k", items := [("k", "k"), ("w", "v")], wher := none },
+  .join 0 1 (.names ["k"]) "inner"]
+
+/-- H_cteNameNotAColumn — both statements call a CTE `k` like the column it exposes: the right one is renamed and with it every
+    identifier `k` of the CTEs after it, columns included; the merged statement does not bind.  PySpark joins them. -/
+theorem C02_cex_cteNameNotAColumn :
+    (runImpl wit_cteNameNotAColumn).flags = ["H_cteNameNotAColumn"] ∧ (runImpl wit_cteNameNotAColumn).result = none ∧
+    runSpec wit_cteNameNotAColumn = some { cols := ["k", "v", "w"], rows := [[.int 2, .int 20, .int 7]] } := by decide
+
+/-- the same two statements with the CTE called `src`: the name clash is resolved and sqlframe returns PySpark's join -/
+example : (runImpl [
+    .sqlq [{ name := "src", body := .values { cols := ["k", "v"], rows := [[.int 1, .int 10], [.int 2, .int 20]] } }]
+      { src := "src", items := [("k", "k"), ("v", "v")], wher := none },
+    .sqlq [{ name := "src", body := .values { cols := ["k", "v"], rows := [[.int 2, .int 7], [.int 3, .int 8]] } }]
+      { src := "src", items := [("k", "k"), ("w", "v")], wher := none },
+    .join 0 1 (.names ["k"]) "inner"]) = { result := some { cols := ["k", "v", "w"], rows := [[.int 2, .int 20, .int 7]] }, flags := [] } := by decide
+
 /-- `createDataFrame([[2, 20]], ['Cust_ID', 'Val']).join(createDataFrame([[2, 7]], ['cust_id', 'val']), 'cust_id')` -/
 def wit_displayNameFolded : List FrameDef := [
   .baseSpelled { cols := ["cust_id", "val"], rows := [[(.int 2), (.int 20)]] } ["Cust_ID", "Val"],
@@ -432,9 +662,20 @@ instance (lt rt : Name) (L R : List Name) : Decidable (QualOK lt rt L R) :=
   decidable_of_iff ((L.map (qual lt) ++ R.map (qual rt)).Nodup) ⟨fun h => ⟨h⟩, fun h => h.nd⟩
 instance (kind : JoinKind) (Lc Rc keys : List Name) : Decidable (NoRightCollision kind Lc Rc keys) := by
   unfold NoRightCollision; exact inferInstance
+instance (cols keys : List Name) : Decidable (RenderOK cols keys) := by
+  unfold RenderOK; exact inferInstance
+
+/-- tables whose key needs quoting -/
+def exQL : Table := { cols := ["order id", "v"], rows := [[.int 1, .int 10], [.int 2, .int 20], [.null, .int 30]] }
+def exQR : Table := { cols := ["order id", "w"], rows := [[.int 2, .int 200], [.null, .int 300], [.int 3, .int 400]] }
+
+/-- … meet every hypothesis of `C02_rows_name` (incl. `RenderOK`), and the block `join` builds has the key once -/
+example : exQL.WF ∧ exQR.WF ∧ QualOK "a" "b" exQL.cols exQR.cols ∧ RenderOK (exQL.cols ++ exQR.cols) ["order id"] ∧
+    (joinDFNames "left outer" .leftOuter "a" "b" ["order id"] exQL exQR).map DF.eval =
+      some { cols := ["order id", "v", "w"], rows := [[.int 2, .int 20, .int 200], [.int 1, .int 10, .null], [.null, .int 30, .null]] } := by decide
 
 /-- the hypotheses of `C02_rows_name` / `C02_rows_expr` / `C02_chain_name` are met by a table pair with NULL and duplicate keys -/
-example : exL.WF ∧ exR.WF ∧ QualOK "a" "b" exL.cols exR.cols ∧ NoRightCollision .rightOuter exL.cols exR.cols ["k"] ∧
+example : exL.WF ∧ exR.WF ∧ QualOK "a" "b" exL.cols exR.cols ∧ RenderOK (exL.cols ++ exR.cols) ["k"] ∧ NoRightCollision .rightOuter exL.cols exR.cols ["k"] ∧
     NoRightCollision .fullOuter exL.cols exR.cols [] ∧ (joinSpecNames .fullOuter ["k"] exL exR).cols.Nodup := by decide
 
 /-- … and the specification is not trivial there: the full-outer name-join has the coalesced key and both unmatched NULL rows -/
@@ -460,9 +701,12 @@ aliased inputs, chains of joins followed by select/where) that PySpark accepts, 
 It is FALSE on the pinned tree (`C02_not_full`); the counterexample theorems above name the causes.  Proved: `C02_how`,
 `C02_on_none`, `C02_cols_*`, `C02_rows_name`, `C02_rows_expr`, `C02_null_*`, `C02_coalesce_key`, `C02_chain*`,
 `C02_partial` — one join of two frozen inputs, every kind and spelling, plus freezing and any C01 chain after it.
+Added later: `C02_dedup_any_name` / `C02_render_*` (names that need quoting), `C02_star_items` / `C02_star_right` /
+`C02_star_left` (a qualified star after a join), `C02_merge_preserves` (merging the two WITH clauses keeps every CTE's value,
+for every interpretation of the query operators) with `C02_cex_mergeKeyNew` / `C02_cex_mergeNoRenames`.
 Not covered by a theorem (executable comparison implementation / model / specification only): `normalize`,
-`_handle_self_join`, `_add_ctes_to_expression` renaming, several joins in one block, select/where resolved inside the
-join block, display names. -/
+`_handle_self_join`, several joins in one block, select/where resolved inside the join block, display names, the
+whole-program model's use of `_add_ctes_to_expression` (CTEs by value; forward references between CTEs). -/
 def C02_full_statement : Prop :=
   ∀ (prog : List FrameDef) (T : Table), runSpec prog = some T → (runImpl prog).result = some T
 
